@@ -389,3 +389,19 @@ Proof.
   destruct (cap <=? List.length inflight)%nat eqn:E; [reflexivity|].
   apply Nat.leb_gt in E. lia.
 Qed.
+
+(* a copy buffer pre-sized by length changes the body both pipelines read, for every n > 0 *)
+Lemma slen_app a b : String.length (a ++ b)%string = String.length a + String.length b.
+Proof. induction a as [|c a IH]; simpl; [reflexivity|]. rewrite IH. reflexivity. Qed.
+Lemma slen_nul n : String.length (nul_prefix n) = n.
+Proof. unfold nul_prefix. induction n as [|n IH]; simpl; [reflexivity|]. rewrite IH. reflexivity. Qed.
+
+Lemma presized_clone_refuted n r b :
+  q_body r = Some b -> n <> 0 ->
+  q_body (fst (clone_request_presized n r)) <> q_body r /\ q_body (snd (clone_request_presized n r)) <> q_body r.
+Proof.
+  intros Hb Hn. unfold clone_request_presized. rewrite Hb. simpl.
+  assert (H : (nul_prefix n ++ b)%string <> b).
+  { intros E. apply (f_equal String.length) in E. rewrite slen_app, slen_nul in E. lia. }
+  split; intros E; inversion E; contradiction.
+Qed.
